@@ -18,13 +18,16 @@ pub fn def() -> MonitorDef {
 	MonitorDef { id: "C02", plan, run_case, finalize }
 }
 
+/// extra cases at the end of the plan: many callers stream (and look up) on one big file-backed reader at once
+const CONCURRENT_CASES: u64 = 4;
+
 fn plan(tier: Tier, _seed: u64) -> Plan {
 	Plan {
-		cases: KINDS as u64 * tier.pick(8, 100),
+		cases: KINDS as u64 * tier.pick(8, 100) + CONCURRENT_CASES,
 		shards: 14,
 		case_timeout_s: 900,
 		level: "exploration",
-		rule: "one evaluation = one (source, box) pair. Sources: the five container readers over files written by the repo's writers and by the independent encoders, the converting reader (all flag combinations, restricted coverage, recompression) over in-memory and file sources, and the pipeline operations from_container, filter_zoom, filter_bbox, from_overlayed, nestings of them, from_debug, from_vectortiles_merged, vectortiles_update_properties. Boxes: every box of zoom 0..3 when the source has tiles there (exhaustive), both empty encodings and the one-dimensional empties on every level touched, and sampled boxes at larger zooms: single tiles, whole levels, boxes straddling block (256) and coverage borders, boxes partly / completely outside the coverage, levels the source does not have. Runs alternate between a current-thread and an 8-worker runtime. Non-trivial: the box holds at least one tile and is not the whole coverage, or is empty / outside; distinct by (source fingerprint, box)".into(),
+		rule: "one evaluation = one (source, box) pair. Sources: the five container readers over files written by the repo's writers and by the independent encoders, the converting reader (all flag combinations, restricted coverage, recompression) over in-memory and file sources, and the pipeline operations from_container, filter_zoom, filter_bbox, from_overlayed, nestings of them, from_debug, from_vectortiles_merged, vectortiles_update_properties. Boxes: every box of zoom 0..3 when the source has tiles there (exhaustive), both empty encodings and the one-dimensional empties on every level touched, and sampled boxes at larger zooms: single tiles, whole levels, boxes straddling block (256) and coverage borders, boxes partly / completely outside the coverage, levels the source does not have. Runs alternate between a current-thread and an 8-worker runtime; every source is also streamed by 8 tasks at once (plus concurrent lookups) and 4 extra cases hammer one big versatiles / PMTiles file (several blocks, leaf directories) with 8 streaming and 2 looking-up callers on OS threads / a 16-worker runtime — each concurrent stream must equal the stream taken alone. Non-trivial: the box holds at least one tile and is not the whole coverage, or is empty / outside; distinct by (source fingerprint, box)".into(),
 		assumptions: vec![
 			"single-tile lookups are the reference; for boxes with more than 4096 coordinates the lookup side is evaluated on stored tiles, their neighbours and a random sample of the box".into(),
 			"boxes are capped at 70 000 coordinates".into(),
@@ -43,6 +46,9 @@ fn finalize(t: Tier, _p: &Plan, rep: &mut Report) {
 		if rep.counter(&format!("pairs_{}", sources::kind_name(k))) == 0 {
 			rep.inconclusive(&format!("no (source, box) pair evaluated for {}", sources::kind_name(k)));
 		}
+	}
+	if rep.counter("concurrent_streams_on_big_file_readers") == 0 {
+		rep.inconclusive("no concurrent streams on a big file-backed reader were taken");
 	}
 	if rep.counter("empty_boxes") == 0 || rep.counter("boxes_outside_coverage") == 0 || rep.counter("exhaustive_small_boxes") == 0 {
 		rep.inconclusive("empty / outside / exhaustive small boxes were not exercised");
@@ -197,6 +203,16 @@ fn boxes_for(b: &Built, rng: &mut Rng, exhaustive_small: bool, sampled: usize, m
 			out.push((bbx, class));
 		}
 	}
+	if max_box < 100 {
+		// sources that synthesise tiles (from_debug): most sampled boxes above are too big for them, so add
+		// small boxes on fixed levels, the deepest ones included
+		for z in [0u8, 1, 7, 16, 30, 31] {
+			let m = ((1u64 << z) - 1) as u64;
+			let (x, y) = (rng.range(0, m), rng.range(0, m));
+			out.push((TileBBox::new(z, x as u32, y as u32, (x + rng.below(2)).min(m) as u32, (y + rng.below(2)).min(m) as u32).unwrap(), "anywhere"));
+		}
+		out.push((TileBBox::new(31, u32::MAX >> 1, u32::MAX >> 1, u32::MAX >> 1, u32::MAX >> 1).unwrap(), "anywhere"));
+	}
 	out
 }
 
@@ -231,7 +247,137 @@ fn candidates(b: &Built, bbox: &TileBBox, streamed: &[(TileCoord3, Blob)], rng: 
 	s.into_iter().collect()
 }
 
+/// Streams of multi-block / multi-leaf boxes taken by 8 callers at once (OS threads with their own runtimes, or
+/// tasks on a 16-worker runtime) while two more callers do lookups: every stream must equal the stream of the
+/// same box taken alone. The stream paths gather per-block indexes and tiles through shared caches; anything
+/// that pairs results by arrival order only shows under this kind of load.
+fn concurrent_case(cx: &CaseCtx, rep: &mut Report, idx: u64) {
+	use std::sync::atomic::{AtomicU64, Ordering};
+	use std::sync::Arc;
+	let mut rng = cx.rng();
+	let kind = ["versatiles", "pmtiles"][(idx % 2) as usize];
+	let tasks_mode = (idx / 2) % 2 == 1;
+	let kname = format!("concurrent:{kind}:{}", if tasks_mode { "tasks" } else { "threads" });
+	cx.progress(&kname);
+	let dir = cx.fresh_dir("c02c");
+	let ts = crate::mon::c01::big_tileset(&mut rng, kind);
+	let path = dir.join(format!("c.{kind}"));
+	let mut src = crate::gen::MemSource::new(&ts);
+	let reader = match guard::catch(|| {
+		guard::block_on(versatiles_container::write_to_filename(&mut src, path.to_str().unwrap())).map_err(|e| format!("{e:#}"))?;
+		guard::block_on(versatiles_container::get_reader(path.to_str().unwrap())).map_err(|e| format!("{e:#}"))
+	}) {
+		Ok(Ok(r)) => Arc::new(r),
+		_ => {
+			rep.inconclusive("could not build the big fixture");
+			return;
+		}
+	};
+	// boxes across the 256-tile block borders (x = 256, y = 256 at z9) of the 130 x 131 tile set at (190, 200)
+	let boxes: Vec<TileBBox> = (0..10)
+		.map(|_| {
+			let (x0, y0) = (rng.range(200, 255) as u32, rng.range(210, 255) as u32);
+			TileBBox::new(9, x0, y0, x0 + rng.range(10, 60) as u32, y0 + rng.range(10, 60) as u32).unwrap()
+		})
+		.collect();
+	let norm = |v: &Vec<(TileCoord3, Blob)>| {
+		let mut x: Vec<(Key, u64)> = v.iter().map(|(c, b)| (key_of(c), fnv(b.as_slice()))).collect();
+		x.sort();
+		x
+	};
+	let solo: Vec<Vec<(Key, u64)>> = guard::block_on(async {
+		let mut v = vec![];
+		for b in &boxes {
+			v.push(norm(&reader.get_bbox_tile_stream(b.clone()).await.collect().await));
+		}
+		v
+	});
+	if solo.iter().all(|v| v.is_empty()) {
+		rep.inconclusive("the big fixture streams nothing");
+		return;
+	}
+	let solo = Arc::new(solo);
+	let boxes = Arc::new(boxes);
+	let keys: Arc<Vec<Key>> = Arc::new(ts.tiles.keys().cloned().collect());
+	// the PMTiles stream is a lookup per coordinate: far slower per box than the chunked versatiles stream
+	let iterations: usize = if kind == "pmtiles" { cx.tier.pick(10, 40) } else { cx.tier.pick(60, 240) };
+	let wrong = Arc::new(AtomicU64::new(0));
+	let done = Arc::new(AtomicU64::new(0));
+	let first_bad: Arc<std::sync::Mutex<Option<String>>> = Arc::new(std::sync::Mutex::new(None));
+	let streamer = move |t: usize, reader: Arc<Box<dyn TilesReaderTrait>>, boxes: Arc<Vec<TileBBox>>, solo: Arc<Vec<Vec<(Key, u64)>>>, wrong: Arc<AtomicU64>, done: Arc<AtomicU64>, first_bad: Arc<std::sync::Mutex<Option<String>>>| async move {
+		for i in 0..iterations {
+			let w = (t * 7 + i) % boxes.len();
+			let got = reader.get_bbox_tile_stream(boxes[w].clone()).await.collect().await;
+			let mut x: Vec<(Key, u64)> = got.iter().map(|(c, b)| (key_of(c), fnv(b.as_slice()))).collect();
+			x.sort();
+			done.fetch_add(1, Ordering::SeqCst);
+			if x != solo[w] {
+				wrong.fetch_add(1, Ordering::SeqCst);
+				first_bad.lock().unwrap().get_or_insert_with(|| format!("caller {t}, iteration {i}, box {}: {} tiles instead of {}", bstr(&boxes[w]), x.len(), solo[w].len()));
+			}
+		}
+	};
+	let looker = move |t: usize, reader: Arc<Box<dyn TilesReaderTrait>>, keys: Arc<Vec<Key>>| async move {
+		for i in 0..iterations * 40 {
+			let k = keys[(i * 131 + t * 977) % keys.len()];
+			let _ = reader.get_tile_data(&coord_of(&k)).await;
+		}
+	};
+	let r = guard::catch(|| {
+		if tasks_mode {
+			guard::block_on_mt(16, async {
+				let mut hs = vec![];
+				for t in 0..8 {
+					hs.push(tokio::spawn(streamer(t, reader.clone(), boxes.clone(), solo.clone(), wrong.clone(), done.clone(), first_bad.clone())));
+				}
+				for t in 0..2 {
+					hs.push(tokio::spawn(looker(t, reader.clone(), keys.clone())));
+				}
+				let mut ok = true;
+				for h in hs {
+					ok &= h.await.is_ok();
+				}
+				ok
+			})
+		} else {
+			let mut hs = vec![];
+			for t in 0..10usize {
+				let (reader, boxes, solo, wrong, done, first_bad, keys) = (reader.clone(), boxes.clone(), solo.clone(), wrong.clone(), done.clone(), first_bad.clone(), keys.clone());
+				hs.push(std::thread::spawn(move || {
+					let rt = tokio::runtime::Builder::new_current_thread().enable_all().build().unwrap();
+					if t < 8 {
+						rt.block_on(streamer(t, reader, boxes, solo, wrong, done, first_bad));
+					} else {
+						rt.block_on(looker(t, reader, keys));
+					}
+				}));
+			}
+			hs.into_iter().map(|h| h.join().is_ok()).fold(true, |a, b| a & b)
+		}
+	});
+	rep.evals(done.load(Ordering::SeqCst));
+	rep.count("concurrent_streams_on_big_file_readers", done.load(Ordering::SeqCst));
+	rep.count(&format!("pairs_{kname}"), done.load(Ordering::SeqCst));
+	rep.nontrivial(fnv(kname.as_bytes()) ^ cx.seed);
+	match r {
+		Err(p) => rep.violation(&p.signature(&format!("stream-{kname}")), "a stream taken while other callers use the same reader panicked", json!({"source": kname, "panic": p.describe()})),
+		Ok(false) => rep.violation(&format!("{kname}|caller-died"), "a concurrent caller died (panic inside a stream)", json!({"source": kname, "first": *first_bad.lock().unwrap()})),
+		Ok(true) => {
+			let w = wrong.load(Ordering::SeqCst);
+			if w > 0 {
+				rep.violation(&format!("{kname}|concurrent-streams-differ"), "a stream taken while other streams / lookups run on the same reader differs from the stream taken alone", json!({"source": kname, "wrong_streams": w, "of": done.load(Ordering::SeqCst), "first": *first_bad.lock().unwrap(), "tileset": ts.describe()}));
+			}
+		}
+	}
+	let _ = std::fs::remove_dir_all(&dir);
+}
+
 fn run_case(cx: &CaseCtx, rep: &mut Report) {
+	let plain = KINDS as u64 * cx.tier.pick(8, 100);
+	if cx.case >= plain {
+		concurrent_case(cx, rep, cx.case - plain);
+		return;
+	}
 	let mut rng = cx.rng();
 	let kind = (cx.case % KINDS as u64) as usize;
 	let kname = sources::kind_name(kind);
@@ -366,28 +512,62 @@ fn run_case(cx: &CaseCtx, rep: &mut Report) {
 			rep.sample(json!({"source": kname, "bbox": bstr(&bbox), "box_class": class, "tiles_in_box": nonempty_in_box, "streamed": items.len()}));
 		}
 	}
-	// stress: 8 streams of the same reader at once (tokio tasks on 8 workers)
-	if !heavy && cx.case % 3 == 0 {
-		let lb: Vec<TileBBox> = b.reader.get_parameters().bbox_pyramid.iter_levels().filter(|l| l.count_tiles() <= 20_000).cloned().collect();
-		if let Some(level_box) = lb.last() {
+	// stress: many streams (and lookups) of the same reader at once — tokio tasks on 8 workers; every concurrent
+	// stream must equal the stream of the same box taken alone
+	if !heavy {
+		let mut lb: Vec<TileBBox> = b.reader.get_parameters().bbox_pyramid.iter_levels().filter(|l| !l.is_empty() && l.count_tiles() <= 70_000).cloned().collect();
+		// prefer boxes that span several 256-tile blocks
+		lb.sort_by_key(|l| ((l.x_max / 256 - l.x_min / 256 + 1) as u64 * (l.y_max / 256 - l.y_min / 256 + 1) as u64, l.count_tiles()));
+		let picks: Vec<TileBBox> = lb.iter().rev().take(2).cloned().collect();
+		if !picks.is_empty() {
 			cx.progress(&format!("{kname} concurrent streams"));
 			let reader = &b.reader;
-			let fut = async {
-				let futs: Vec<_> = (0..8).map(|_| async { reader.get_bbox_tile_stream(level_box.clone()).await.collect().await }).collect();
-				futures::future::join_all(futs).await
+			let norm = |v: &Vec<(TileCoord3, Blob)>| {
+				let mut x: Vec<(Key, u64)> = v.iter().map(|(c, b)| (key_of(c), fnv(b.as_slice()))).collect();
+				x.sort();
+				x
 			};
-			match guard::catch(|| guard::block_on_mt(8, fut)) {
-				Err(p) => rep.violation(&p.signature(&format!("stream-concurrent-{kname}")), "concurrent streams panicked", json!({"source": kname, "panic": p.describe()})),
-				Ok(all) => {
-					rep.count("concurrent_stream_runs", 1);
-					let norm = |v: &Vec<(TileCoord3, Blob)>| {
-						let mut x: Vec<(Key, u64)> = v.iter().map(|(c, b)| (key_of(c), fnv(b.as_slice()))).collect();
-						x.sort();
-						x
+			let solo = guard::catch(|| guard::block_on(async {
+				let mut v = vec![];
+				for p in &picks {
+					v.push(reader.get_bbox_tile_stream(p.clone()).await.collect().await);
+				}
+				v
+			}));
+			if let Ok(solo) = solo {
+				let reference: Vec<Vec<(Key, u64)>> = solo.iter().map(norm).collect();
+				let probes: Vec<TileCoord3> = solo.iter().flat_map(|v| v.iter().take(40).map(|(c, _)| *c)).collect();
+				for round in 0..cx.tier.pick(2, 4) {
+					let fut = async {
+						let streams: Vec<_> = (0..8).map(|i| {
+							let which = i % picks.len();
+							let p = picks[which].clone();
+							async move { (which, reader.get_bbox_tile_stream(p).await.collect().await) }
+						}).collect();
+						let lookups = async {
+							for c in &probes {
+								let _ = reader.get_tile_data(c).await;
+							}
+						};
+						let (r, _, _) = futures::join!(futures::future::join_all(streams), lookups, async {
+							for c in probes.iter().rev() {
+								let _ = reader.get_tile_data(c).await;
+							}
+						});
+						r
 					};
-					let first = norm(&all[0]);
-					if all.iter().any(|v| norm(v) != first) {
-						rep.violation(&format!("{kname}|concurrent-streams-differ"), "eight concurrent streams of the same box delivered different content", json!({"source": kname, "bbox": bstr(level_box)}));
+					match guard::catch(|| guard::block_on_mt(8, fut)) {
+						Err(p) => {
+							rep.violation(&p.signature(&format!("stream-concurrent-{kname}")), "concurrent streams panicked", json!({"source": kname, "panic": p.describe()}));
+							break;
+						}
+						Ok(all) => {
+							rep.count("concurrent_stream_runs", 1);
+							if let Some((which, _)) = all.iter().find(|(which, v)| norm(v) != reference[*which]) {
+								rep.violation(&format!("{kname}|concurrent-streams-differ"), "a stream taken while other streams / lookups run on the same reader differs from the stream taken alone", json!({"source": kname, "source_detail": b.describe, "bbox": bstr(&picks[*which]), "round": round}));
+								break;
+							}
+						}
 					}
 				}
 			}
